@@ -481,6 +481,10 @@ class MatWorld(World):
             finally:
                 pending = self.solver.disarm() if fault else False
             u1, z1 = self._sim_state()
+            if failed is not None:
+                # what a Save_Iter right after a failed attempt commits is not specified: no oracle on the next save
+                self.sim_solved_since_commit = True
+                self.sim_monotone_ok = False
             if z1 != z0:
                 raise Violation("solve-advanced-committed-state", f"the committed internal variables changed during Solve ({'failed' if failed else 'successful'}); only Save_Iter may advance the history")
             ctx.checked()
@@ -502,6 +506,7 @@ class MatWorld(World):
                     if ur is not None and not np.array_equal(np.frombuffer(self._sim_state()[0]), ur):
                         raise Violation("retry-differs-from-unfaulted", "the step retried after an injected failure differs from the same step without failure")
                     ctx.checked()
+                    self.sim_solved_since_commit = True
                     return "ok"
                 if simlib.is_nonconvergence(failed.exc) or "did not converge" in str(failed.exc):
                     ctx.probe("sim_not_converged")
@@ -509,11 +514,38 @@ class MatWorld(World):
                 raise Violation("sim-solve-raises", f"Solve raised {failed}", failed.site)
             if fault and not pending:
                 raise Violation("fault-swallowed", "an injected back-end failure did not surface from Solve()")
+            self.sim_solved_since_commit = True
             return "ok"
         if name == "sim_save":
+            zo0 = {str(k): np.array(v) for k, v in getattr(sim, "_InElastic__zOld").items()}
             with ctx.sut():
                 sim.Save_Iter()
+            zo1 = {str(k): np.array(v) for k, v in getattr(sim, "_InElastic__zOld").items()}
             ctx.probe("sim_state_committed")
+            if not getattr(self, "sim_solved_since_commit", False):
+                # nothing was solved since the last commit / restore: saving again (a hold, a checkpoint) commits the
+                # very same history -- 'only saving a converged step advances the history'
+                ctx.probe("sim_saved_without_solve")
+                for k, v0 in zo0.items():
+                    v1 = zo1.get(k)
+                    if not np.any(v0):
+                        continue  # virgin entries may be created lazily
+                    if v1 is None or v1.shape != v0.shape or not np.array_equal(v1, v0, equal_nan=True):
+                        raise Violation("save-without-solve-changed-history", f"Save_Iter with no Solve since the last Save_Iter / Set_Iter changed the committed internal variables of group {k}" + ("" if v1 is not None else " (the entry disappeared)"))
+                ctx.checked()
+            elif getattr(self, "sim_monotone_ok", False):
+                # a step solved from the committed state and then saved: the accumulated plastic strain never decreases
+                for k, v0 in zo0.items():
+                    v1 = zo1.get(k)
+                    p0 = self._p(v0) if v0.size else None
+                    if p0 is None or not np.any(v0):
+                        continue
+                    p1 = self._p(v1) if v1 is not None and v1.shape == v0.shape else None
+                    if p1 is None or (p0 - p1).max() > 1e-12 * max(refs.maxabs(p0), 1e-300):
+                        raise Violation("plastic-multiplier-negative", f"committing a solved step decreased the accumulated plastic strain of group {k}" + (f" by {(p0 - p1).max():.3e}" if p1 is not None else " (the committed entry disappeared)"))
+                ctx.checked()
+            self.sim_solved_since_commit = False
+            self.sim_monotone_ok = True
             return "ok"
         if name == "sim_set_iter":
             if op["i"] >= sim.Niter:
@@ -521,6 +553,8 @@ class MatWorld(World):
             with ctx.sut():
                 sim.Set_Iter(op["i"])
             self._sim_load(self.load)
+            self.sim_solved_since_commit = False
+            self.sim_monotone_ok = True
             return "ok"
         if name == "sim_result":
             u0, z0 = self._sim_state()
